@@ -64,9 +64,8 @@ class Memo:
         Any :
             The results of calling the function with path.
         """
-        if path in self.cache and os.path.exists(path):
-            self.counter += 1
-            return self.cache[path]
+        # the files under path can change between two calls, a stored result
+        # is therefore never reused, it only records the latest listing
         result = self.func(path)
         self.cache[path] = result
         return result
